@@ -1,17 +1,21 @@
 #!/bin/bash
 # tools/seedtest.sh <patch-file> <Cxx> [tier] [seed]
-# Applies a seeded change to /repo, runs the property's check, and ALWAYS restores /repo.
-# Exit 0 when the check reported a VIOLATION (the seed was caught), 1 when it was missed,
-# 2 when the patch does not apply / the engine does not build.
+# Applies a seeded change to a checkout of the repository, runs the property's check against it and
+# ALWAYS restores the checkout. By default the checkout is /repo itself (as the brief prescribes:
+# git -C /repo apply ...; run; git -C /repo checkout -- .). With SEED_REPO=<dir> (a scratch worktree
+# outside /repo and /verif) the check is pointed at that checkout through VERIF_REPO and its evidence
+# goes to a scratch directory, so that other work on /repo and /verif/evidence is not disturbed.
+# Exit 0 when the check reported a VIOLATION (caught), 1 when it was missed, 2 otherwise.
 set -u
 PATCH=$(readlink -f "$1"); PROP=$2; TIER=${3:-quick}; SEED=${4:-1}
+REPO=${SEED_REPO:-/repo}
 cd /verif
-if ! git -C /repo diff --quiet; then echo "seedtest: /repo has uncommitted changes, refusing"; exit 2; fi
-if ! git -C /repo apply --check "$PATCH" 2>/dev/null; then echo "seedtest: patch does not apply"; exit 2; fi
+if ! git -C "$REPO" diff --quiet; then echo "seedtest: $REPO has uncommitted changes, refusing"; exit 2; fi
+if ! git -C "$REPO" apply --check "$PATCH" 2>/dev/null; then echo "seedtest: patch does not apply"; exit 2; fi
 SAVE=$(mktemp -d /tmp/seedtest.XXXXXX)
-cp evidence/$PROP.json "$SAVE/" 2>/dev/null
-git -C /repo apply "$PATCH"
-trap 'git -C /repo checkout -- . ; git -C /repo clean -fdq -- pkg collector >/dev/null 2>&1; cp "$SAVE/$PROP.json" evidence/ 2>/dev/null; rm -rf "$SAVE"' EXIT
+if [ "$REPO" != /repo ]; then export VERIF_REPO="$REPO" VERIF_EVIDENCE_DIR="$SAVE/evidence"; else cp evidence/$PROP.json "$SAVE/" 2>/dev/null; fi
+git -C "$REPO" apply "$PATCH"
+trap 'git -C "$REPO" checkout -- . ; git -C "$REPO" clean -fdq -- pkg collector >/dev/null 2>&1; [ "$REPO" = /repo ] && cp "$SAVE/$PROP.json" evidence/ 2>/dev/null; rm -rf "$SAVE"' EXIT
 OUT=$(./check "$PROP" "$TIER" --seed "$SEED" 2>&1); RC=$?
 echo "$OUT" | grep -E "^(VIOLATION|KNOWN-FINDING|INCONCLUSIVE|$PROP )|signature=" | cut -c1-300 | head -12
 case $RC in
